@@ -293,8 +293,10 @@ func (ex *Exec) valTerm(v *Val) *Term {
 		panic(oos("interior or local pointer used as a value (" + v.Loc.PathS + ")"))
 	}
 	if v.Fn != nil {
-		// function value as opaque constant
-		return ex.env.d.Const(symSafe("fn "+funcKey(v.Fn)), SRef)
+		// function value as opaque non-nil constant
+		c := ex.env.d.Const(symSafe("fn "+funcKey(v.Fn)), SRef)
+		ex.addAxiom(Gt(c, IntLit(0)))
+		return c
 	}
 	panic(oos("valTerm of composite value " + v.String()))
 }
